@@ -357,7 +357,14 @@ def gen_head(rng):
         maybe_ws()
     for _ in range(rng.choice([0, 0, 1, 2, 3])):
         r = rng.random()
-        if r < 0.3:
+        if r < 0.08:
+            # pragma directives other than content-type (conforming keywords): not encoding declarations
+            he = rng.choice(["refresh", "default-style", "x-ua-compatible", "content-security-policy", "Refresh"])
+            pair = [("http-equiv", he), ("content", rng.choice(["5", "IE=edge", "default-src 'self'", "a", "30; url=x"]))]
+            if rng.random() < 0.5:
+                pair.reverse()
+            kids.append(E("meta", pair))
+        elif r < 0.3:
             kids.append(E("meta", [("name", rng.choice(["description", "viewport", "x"])), ("content", rand_text(rng, 8))]))
         elif r < 0.5:
             kids.append(E("link", [("rel", "stylesheet"), ("href", rand_text(rng, 8))]))
